@@ -390,6 +390,22 @@ def path_correspondence(ctx):
         if back != other:
             ctx.violate({'clause': 'href-path', 'format': '-', 'trigger': 'none'},
                         f'href from {me} to {other} is {rel!r} and reads back as {back}', {'case': 'paths', 'me': me, 'other': other})
+    # the text of an href: `Resource.normalize` drops an announced type and nothing else (blanks belong to the path)
+    from pyecore.resources.resource import Resource
+    words = ['my dir', 'x  y', 'a', 'b.xmi', 'm 1.json', '..', 'd1', 'http:', 'C', 'tab\there']
+    types = ['ecore:EClass', 'p:A', 'ns0:C1', 'x:y:z']
+    frags = ['#//@kids.0', '#/', '#id 7', '#//A', '']
+    for k in range(200 if ctx.quick() else 4000):
+        uri = '/'.join(rng.choice(words) for _ in range(rng.randint(1, 4))) + rng.choice(frags)
+        text = uri if rng.random() < .5 else rng.choice(types) + rng.choice([' ', '  ', ' \t']) + uri
+        if rng.random() < .1:
+            text = rng.choice(['a:b c', 'a:b', 'a:b/c d', 'x#y:z w', ':', ': x', 'a: ', 'p:A  '])
+        if text != text.rstrip('\n') or '\n' in text or text.endswith(' ') or text.endswith('\t'):
+            text = text.rstrip() or 'a'
+        got_real = Resource.normalize(text)
+        ctx.evaluations += 1
+        ctx.count('href-text/' + ('typed' if text != got_real else 'as-written'))
+        model_in.append('hrefnorm ' + text); expect.append((text, '-', got_real))
     out = common.run_driver('paths', model_in)
     for line, exp, got in zip(model_in, expect, out):
         me, other, want = exp
